@@ -26,7 +26,15 @@ func (w *c07World) handler(reg int64) network.StreamHandler {
 		lp := c07Pid(s.Protocol())
 		var buf [9]byte
 		s.SetReadDeadline(time.Now().Add(6 * time.Second))
-		if _, err := io.ReadFull(s, buf[:]); err != nil {
+		n, err := io.ReadFull(s, buf[:])
+		var nonce int64
+		switch {
+		case err == nil:
+			nonce = int64(binary.BigEndian.Uint64(buf[1:]))
+		case n == 0 && err == io.EOF:
+			// a dialer with nothing to send half-closed right away: answer all the same
+			nonce = c07Requestless
+		default:
 			w.mu.Lock()
 			w.invs = append(w.invs, c07Inv{reg, lp, -1})
 			w.mu.Unlock()
@@ -34,7 +42,6 @@ func (w *c07World) handler(reg int64) network.StreamHandler {
 			return
 		}
 		s.SetReadDeadline(time.Time{})
-		nonce := int64(binary.BigEndian.Uint64(buf[1:]))
 		w.mu.Lock()
 		w.invs = append(w.invs, c07Inv{reg, lp, nonce})
 		w.heldL[nonce] = s
@@ -93,6 +100,21 @@ func (w *c07World) scopeObs() []int64 {
 	return res
 }
 
+// nonce of an open whose dialer sends nothing (only in sequential opens)
+const c07Requestless = int64(-2)
+
+// the first operations the dialer performs on the stream NewStream returned
+const (
+	fopWriteRead          = 0
+	fopReadWrite          = 1 // Read is under way before the first Write
+	fopDeadlineReadWrite  = 2 // SetDeadline, Read under way, Write
+	fopDeadlineWriteRead  = 3
+	fopCloseWriteRead     = 4 // nothing to send: CloseWrite first, then read the answer
+	fopWriteCloseWriteRd  = 5
+	fopCloseReadWrite     = 6 // not interested in the answer: CloseRead first, then Write
+	c07NumFops            = 7
+)
+
 type c07Open struct {
 	res, dp, use, h, lp int64
 	nonce               int64
@@ -100,7 +122,7 @@ type c07Open struct {
 }
 
 // open = NewStream + first use (write the nonce, read the echo)
-func (w *c07World) open(out *verifh.Out, reqs []int64, nonce int64, first byte, allow, late bool) c07Open {
+func (w *c07World) open(out *verifh.Out, reqs []int64, nonce int64, first byte, allow, late bool, fop int64) c07Open {
 	o := c07Open{res: 0, dp: -1, use: -1, h: -1, lp: -1, nonce: nonce}
 	pids := make([]protocol.ID, len(reqs))
 	for i, r := range reqs {
@@ -145,13 +167,10 @@ func (w *c07World) open(out *verifh.Out, reqs []int64, nonce int64, first byte, 
 	var buf [9]byte
 	buf[0] = first
 	binary.BigEndian.PutUint64(buf[1:], uint64(nonce))
-	_, werr := s.Write(buf[:])
+	e, werr, rerr := w.firstOps(out, s, fop, buf[:], nonce)
 	if werr != nil {
 		out.Cover("use.write_failed")
 	}
-	var e [16]byte
-	s.SetReadDeadline(time.Now().Add(6 * time.Second))
-	_, rerr := io.ReadFull(s, e[:])
 	if werr != nil || rerr != nil {
 		o.use = 0
 		if werr == nil {
@@ -164,11 +183,26 @@ func (w *c07World) open(out *verifh.Out, reqs []int64, nonce int64, first byte, 
 		s.Reset()
 		return o
 	}
-	s.SetReadDeadline(time.Time{})
-	if int64(binary.BigEndian.Uint64(e[0:])) != nonce {
+	want := nonce
+	if fop == fopCloseWriteRead {
+		want = c07Requestless
+	}
+	if int64(binary.BigEndian.Uint64(e[0:])) != want {
 		o.use = 2 // somebody else's bytes
 		s.Reset()
 		return o
+	}
+	if fop == fopCloseWriteRead {
+		// the handler's end of this (sequential) open is filed under the requestless key
+		w.mu.Lock()
+		if ls, ok := w.heldL[c07Requestless]; ok {
+			delete(w.heldL, c07Requestless)
+			w.heldL[nonce] = ls
+		}
+		w.mu.Unlock()
+	}
+	if fop >= fopCloseWriteRead {
+		late = false
 	}
 	o.h = int64(int32(binary.BigEndian.Uint32(e[8:])))
 	o.lp = int64(int32(binary.BigEndian.Uint32(e[12:])))
@@ -181,6 +215,78 @@ func (w *c07World) open(out *verifh.Out, reqs []int64, nonce int64, first byte, 
 	o.use = 1
 	o.s = s
 	return o
+}
+
+// firstOps performs the dialer's first operations on the fresh stream in the
+// order [fop] prescribes and returns the 16-byte answer of the handler.
+func (w *c07World) firstOps(out *verifh.Out, s network.Stream, fop int64, payload []byte, nonce int64) (e [16]byte, werr, rerr error) {
+	write := func() error { _, err := s.Write(payload); return err }
+	read := func() error { _, err := io.ReadFull(s, e[:]); return err }
+	async := func() chan error {
+		ch := make(chan error, 1)
+		go func() { ch <- read() }()
+		time.Sleep(time.Millisecond) // let the Read get going first
+		return ch
+	}
+	switch fop {
+	case fopReadWrite:
+		s.SetReadDeadline(time.Now().Add(6 * time.Second))
+		ch := async()
+		werr = write()
+		rerr = <-ch
+	case fopDeadlineReadWrite:
+		s.SetDeadline(time.Now().Add(6 * time.Second))
+		ch := async()
+		werr = write()
+		rerr = <-ch
+	case fopDeadlineWriteRead:
+		s.SetDeadline(time.Now().Add(6 * time.Second))
+		werr = write()
+		rerr = read()
+	case fopCloseWriteRead:
+		werr = s.CloseWrite()
+		s.SetReadDeadline(time.Now().Add(6 * time.Second))
+		rerr = read()
+	case fopWriteCloseWriteRd:
+		werr = write()
+		if werr == nil {
+			werr = s.CloseWrite()
+		}
+		s.SetReadDeadline(time.Now().Add(6 * time.Second))
+		rerr = read()
+	case fopCloseReadWrite:
+		s.CloseRead()
+		werr = write()
+		// the answer cannot be read: take it from the handler's own record
+		deadline := time.Now().Add(3 * time.Second)
+		rerr = errors.New("the handler never got the nonce")
+		for werr == nil && time.Now().Before(deadline) {
+			w.mu.Lock()
+			for _, v := range w.invs {
+				if v.nonce == nonce {
+					binary.BigEndian.PutUint64(e[0:], uint64(nonce))
+					binary.BigEndian.PutUint32(e[8:], uint32(int32(v.reg)))
+					binary.BigEndian.PutUint32(e[12:], uint32(int32(v.lp)))
+					rerr = nil
+				}
+			}
+			w.mu.Unlock()
+			if rerr == nil {
+				break
+			}
+			time.Sleep(200 * time.Microsecond)
+		}
+	default:
+		werr = write()
+		s.SetReadDeadline(time.Now().Add(6 * time.Second))
+		rerr = read()
+	}
+	if fop != fopCloseReadWrite {
+		s.SetDeadline(time.Time{})
+	}
+	out.Cover("use.first_ops." + []string{"write_read", "read_write", "deadline_read_write", "deadline_write_read",
+		"closewrite_read", "write_closewrite_read", "closeread_write"}[fop])
+	return
 }
 
 // lateExchange: the application keeps using the stream after the negotiation
@@ -369,11 +475,11 @@ func (r *c07Run) batch(reqs [][]int64, modes []int64, rnd *verifh.Rand) {
 		wg.Add(1)
 		go func(i int) {
 			defer wg.Done()
-			obs[i] = w.open(r.out, reqs[i], nonces[i], firsts[i], modes[i]&1 == 1, modes[i]&2 == 2)
+			obs[i] = w.open(r.out, reqs[i], nonces[i], firsts[i], modes[i]&1 == 1, modes[i]&2 == 2, (modes[i]>>2)%c07NumFops)
 		}(i)
 	}
 	wg.Wait()
-	dead := map[int64]bool{}
+	dead := map[int64]bool{c07Requestless: true}
 	for i := range obs {
 		if obs[i].use == 1 {
 			r.slots[r.nslot] = c07Slot{d: obs[i].s, nonce: nonces[i]}
@@ -396,7 +502,7 @@ func (r *c07Run) batch(reqs [][]int64, modes []int64, rnd *verifh.Rand) {
 	for i := range obs {
 		var ninv, hreg, hlp int64 = 0, -1, -1
 		for _, v := range invs {
-			if v.nonce == nonces[i] {
+			if v.nonce == nonces[i] || (n == 1 && v.nonce == c07Requestless && (modes[i]>>2)%c07NumFops == fopCloseWriteRead) {
 				if ninv == 0 {
 					hreg, hlp = v.reg, v.lp
 				}
@@ -406,7 +512,7 @@ func (r *c07Run) batch(reqs [][]int64, modes []int64, rnd *verifh.Rand) {
 		r.line = append(r.line, obs[i].res, obs[i].dp, obs[i].use, obs[i].h, obs[i].lp, ninv, hreg, hlp)
 	}
 	for _, v := range invs {
-		known := false
+		known := n == 1 && v.nonce == c07Requestless && (modes[0]>>2)%c07NumFops == fopCloseWriteRead
 		for _, x := range nonces {
 			known = known || v.nonce == x
 		}
